@@ -255,7 +255,6 @@ func (pf *pfunc) condFacts(n *vn, truth bool, why string, fs *factSet, depth int
 				pf.inPhiCond = map[*ssa.Phi]bool{}
 			}
 			pf.inPhiCond[ph] = true
-			defer delete(pf.inPhiCond, ph)
 			var live []int
 			for _, i := range cands {
 				tmp := &factSet{}
@@ -273,6 +272,8 @@ func (pf *pfunc) condFacts(n *vn, truth bool, why string, fs *factSet, depth int
 				}
 			}
 			cands = live
+			// the guard covers the trial above only: the one edge that remains is followed below
+			delete(pf.inPhiCond, ph)
 		}
 		if len(cands) != 1 {
 			return
